@@ -1,6 +1,9 @@
 package checks
 
 import (
+	"encoding/hex"
+	"github.com/deepteams/webp/internal/lossless"
+	"github.com/deepteams/webp/internal/zzverif/arb"
 	"encoding/json"
 	"fmt"
 	webp "github.com/deepteams/webp"
@@ -106,5 +109,25 @@ func init() {
 				fmt.Printf("pool=%s lossless=%v: %.3f ms/encode\n", pol, ll, time.Since(t0).Seconds()*1000/200)
 			}
 		}
+	}})
+}
+
+func init() {
+	fw.Register(&fw.Check{ID: "DBG3", Level: "other", Run: func(e *fw.Env, r *fw.Result) {
+		pin()
+		raw, _ := os.ReadFile(e.Args[0])
+		var v fw.Violation
+		json.Unmarshal(raw, &v)
+		var rp c03Replay
+		json.Unmarshal(v.Replay, &rp)
+		b, _ := hex.DecodeString(rp.Hex)
+		fmt.Println(rp.Desc)
+		_, err := lossless.DecodeVP8L(b)
+		fmt.Println("repo:", err)
+		m, err2 := refdec.DecodeVP8L(b)
+		fmt.Println("ximage:", err2, m != nil)
+		ok, w, h, _, aerr := arb.RGBA(riffwalk.RIFF(riffwalk.ChunkBytes("VP8L", b)))
+		fmt.Println("libwebp:", ok, w, h, aerr)
+		os.WriteFile("/tmp/c03/stream.webp", riffwalk.RIFF(riffwalk.ChunkBytes("VP8L", b)), 0o644)
 	}})
 }
